@@ -211,6 +211,7 @@ static Hash128 hash_key(const std::string& s) {
 }
 
 constexpr int MAXD = 12;
+enum { HISTORY_WATCHDOG_S = 20 };
 struct Node { MState st; int32_t prefix; uint8_t len; uint8_t stut; uint8_t hist[MAXD]; };  // stut: reached by an operation that left the model state unchanged
 struct Rec { uint8_t type; Hash128 h; Node n; };  // type 1 successor, 2 end-of-worker stats
 struct Stats { long transitions = 0, ops = 0, fenced = 0, foreign = 0, lenient = 0, violations = 0, disabled = 0, selfcheck_fail = 0, incomplete = 0; };
@@ -283,7 +284,9 @@ struct Explorer {
         // the configuration prefix itself is a history: validate it before anything is built on it
         fl[id].node = (int)j; fl[id].opidx = -1;
         std::vector<Op> pops = history_ops(p, n);
+        alarm(HISTORY_WATCHDOG_S);   // a history that does not come back (a loop inside the library) ends this worker; the parent attributes it
         HistoryResult hr = run_history(pops, p.mask, guards, false);
+        alarm(0);
         ++s.transitions; s.ops += (long)hr.steps.size();
         if (hr.first_bad >= 0) {
           if (hr.bad_fields & p.mask) {
@@ -299,7 +302,9 @@ struct Explorer {
         if (base.fenced(op)) { ++s.fenced; continue; }
         fl[id].node = (int)j; fl[id].opidx = (int)x;
         std::vector<Op> ops = history_ops(p, n, (int)x);
+        alarm(HISTORY_WATCHDOG_S);
         HistoryResult hr = run_history(ops, p.mask, guards, false);
+        alarm(0);
         ++s.transitions; s.ops += (long)hr.steps.size(); s.lenient += hr.lenient;
         if (hr.disabled) { ++s.disabled; continue; }
         if (!hr.selfcheck.empty()) { ++s.selfcheck_fail; fprintf(stderr, "model self-check failed: %s\n", hr.selfcheck.c_str()); }
@@ -550,7 +555,9 @@ int main(int argc, char** argv) {
     if (ops.empty()) { fprintf(stderr, "no ops in %s\n", replay_path.c_str()); return 2; }
     if (g_replay_unmappable) { fprintf(stderr, "%s refers to expectation shapes that this explorer's site table does not contain (or carries no shape descriptors): not replayable here\n", replay_path.c_str()); return 3; }
     for (auto& o : ops) if ((o.kind == OP_CREATE || o.kind == OP_MONITOR) && !site_exists(o.shape, o.slot)) { fprintf(stderr, "%s needs a creation site (shape %d, slot %d) that this explorer does not contain: not replayable here\n", replay_path.c_str(), (int)o.shape, (int)o.slot); return 3; }
+    alarm(60);   // replaying one history takes milliseconds: a minute means the library does not come back
     HistoryResult hr = run_history(ops, mask, Guards{}, true);
+    alarm(0);
     for (size_t k = 0; k < hr.steps.size(); ++k) {
       if (probe) continue;
       printf("step %zu: %s\n   model: %s\n   impl : %s\n", k, op_str(ops[k]).c_str(), outcome_str(hr.steps[k].mo).c_str(), outcome_str(hr.steps[k].io).c_str());
